@@ -39,6 +39,8 @@ pub static C10: C10Prop = C10Prop;
 const CMDS: [&str; 4] = ["c0", "c1", "c2", "c3"];
 const LABELS: [&str; 3] = [":a", ":b", ":dup"];
 const GETTERS: [&str; 3] = ["e = get_last_error", "l = get_last_error_line", "s = get_last_error_source"];
+/// real SDK invocations that report an error (array_is_empty, base64, array_join are script-implemented commands)
+const REAL_FAIL: [&str; 12] = ["array_push nothandle 1", "substring abc 9", "array_pop nothandle", "x = calc 1 +", "map_put nomap k v", "x = array_is_empty nothandle", "x = substring abc 9", "read_properties", "x = set_contains nothandle v", "x = base64", "x = array_join nothandle ,", "array_is_empty nothandle"];
 const MAIN: &str = "main.ds";
 const INC: &str = "inc.ds";
 
@@ -235,7 +237,7 @@ fn dec_obs(imp: &str) -> Option<Obs> {
 
 fn is_true(v: &str) -> bool {
     let l = v.to_lowercase();
-    !(l.is_empty() || l == "0" || l == "false" || l == "no" || l == "yes")
+    !(l.is_empty() || l == "0" || l == "false" || l == "no")
 }
 
 /// instruction index ↦ (text of the line, 1-based line number, source) — one instruction per
@@ -369,6 +371,18 @@ fn check(r: &Req, o: &Obs) -> Result<(), String> {
                 "M" | "A" => {
                     if *line < 4 || !is_group(&lay, *line - 4, &[args[0].as_str()]) {
                         continue;
+                    }
+                    {
+                        let first = lay[*line - 4].0.trim();
+                        let bare = first.strip_prefix("x = ").unwrap_or(first);
+                        let ok = if args[0] == "M" {
+                            bare.starts_with("trigger_error") || bare.starts_with("assert_error") || bare == "set_error"
+                        } else {
+                            REAL_FAIL.contains(&first)
+                        };
+                        if !ok {
+                            continue;
+                        }
                     }
                     let (lt, st, _, _) = pos(*line - 4);
                     if fatal {
@@ -523,7 +537,7 @@ fn gen_element(rng: &mut Rng, out: &mut Vec<String>, ind: &str, allow_labels: bo
         }
         16 => out.push(format!("{}{} = {}", ind, rng.pick_s(&["y", "z"]), rng.pick_s(&["get_last_error", "get_last_error_line", "get_last_error_source", "exit_on_error"]))),
         17 if full_sdk => {
-            let c = rng.pick_s(&["array_push nothandle 1", "substring abc 9", "array_pop nothandle", "x = calc 1 +", "map_put nomap k v", "x = array_is_empty nothandle", "x = substring abc 9", "read_properties", "x = set_contains nothandle v", "x = base64", "x = array_join nothandle ,", "array_is_empty nothandle"]);
+            let c = rng.pick_s(&REAL_FAIL);
             push_group(out, ind, c.to_string(), "probe A ${e} ${l} ${s}".to_string());
         }
         18 if !full_sdk && rng.chance(1, 4) => out.push(format!("{}nope arg", ind)),
